@@ -882,7 +882,17 @@ def g8(e: Engine, rep: Report, rule: str):
             n_r += 1
             rep.evaluations += 1
             st = fx.at(n) or frozenset()
-            dep = sorted(k for p, k in st if 'recv_buffer' in k)
+            # locals that stand for the whole buffer
+            alias = {t.id for a in walk_own(m.node)
+                     if isinstance(a, ast.Assign) and
+                     isinstance(a.value, ast.Attribute) and
+                     a.value.attr == 'recv_buffer'
+                     for t in a.targets if isinstance(t, ast.Name)}
+            import re as _re
+            sized = _re.compile(r'len\((%s)(#\d+)?\)' % '|'.join(
+                sorted(alias) or ['\0']))
+            dep = sorted(k for p, k in st if 'recv_buffer' in k or
+                         sized.search(k))
             rep.check(not dep, rule, where,
                       '`%s` does not depend on the amount buffered'
                       % ' '.join(ast.unparse(n.ast).split())[:40],
